@@ -100,6 +100,18 @@ impl Rng {
 thread_local! {
     static LAST_PANIC: RefCell<String> = RefCell::new(String::new());
     static QUIET: RefCell<bool> = RefCell::new(false);
+    static CASE: RefCell<String> = RefCell::new(String::new());
+}
+
+/// Breadcrumb for non-unwinding panics (std's UB checks abort the process): an oracle announces the
+/// case it is about to run (a complete protocol line); if the process then aborts, the panic hook
+/// prints it as `ABORT-CASE <line>` and `check` reports that line as the failing input.
+pub fn set_case(desc: &str) {
+    CASE.with(|c| {
+        let mut c = c.borrow_mut();
+        c.clear();
+        c.push_str(desc);
+    });
 }
 
 pub fn install_panic_hook() {
@@ -113,6 +125,13 @@ pub fn install_panic_hook() {
         };
         if !QUIET.with(|q| *q.borrow()) {
             eprintln!("harness panic: {} at {:?}", msg, info.location());
+        }
+        if !QUIET.with(|q| *q.borrow()) || msg.contains("unsafe precondition") || msg.contains("cannot unwind") {
+            // the process is about to abort (UB check / panic in a nounwind context)
+            let case = CASE.with(|c| c.borrow().clone());
+            let loc = info.location().map(|l| format!("{}:{}", l.file(), l.line())).unwrap_or_default();
+            let first = msg.split('\n').next().unwrap_or("").to_string();
+            eprintln!("ABORT-CASE {} => process abort: {} at {}", if case.is_empty() { "(no case announced)" } else { &case }, first, loc);
         }
         LAST_PANIC.with(|p| *p.borrow_mut() = msg);
     }));
